@@ -700,6 +700,26 @@ func RunC04(d *Driver) *Report {
 			if got != want {
 				r.Violation(Case{Stream: "range", Input: src, Real: got + " " + trunc(perr+pp, 300), Model: "loop variable: " + model, Spec: want + " (range over num, string, array or map; the loop variable has the element type, string for strings and maps)"})
 			}
+			// a range with two or three operands is a step range: every operand is a num (docs/spec.md, for statement)
+			for _, form := range []string{"%s 2", "1 %s", "%s 1 2", "0 %s 2", "0 5 %s", "%s %s"} {
+				hdr := strings.ReplaceAll(form, "%s", l.src)
+				for _, lv := range []string{"for i := range " + hdr + "\n    print i\nend\n", "for range " + hdr + "\n    print 1\nend\n"} {
+					src := l.pre + lv
+					nprog++
+					r.Count("range:"+src, true)
+					_, perr, pp := ParseSrc(src)
+					got, want := "accept", "reject"
+					if perr != "" || pp != "" {
+						got = "reject"
+					}
+					if l.w == "n" {
+						want = "accept"
+					}
+					if got != want {
+						r.Violation(Case{Stream: "range", Input: src, Real: got + " " + trunc(perr+pp, 300), Model: "operand type " + l.w, Spec: want + " (a range with more than one operand takes num operands only)"})
+					}
+				}
+			}
 		}
 	}
 	r.Rule = fmt.Sprintf("function level: accepts for ALL pairs of the %d types up to nesting depth %d (every composite with Fixed true and false, plus the interned empty, generic and none types); matches, Equals, combineTypes, concatType for all pairs up to depth %d; infer, fixedType, String for every type; combineTypes for all triples of depth-1 types (%d queries), each compared with Model/Types.lean. Program level: %d programs = %d target types (depth <= 2) x %d value expressions (constants incl. nested and empty literals, variables of every type, elements, fields, call results, type assertions, literals with variable elements, concatenations / repetitions / slices / groups) x 6 contexts (assignment, parameter, variadic parameter, return, array element, map field) + inferred declarations with typeof; the parser's verdict is compared with the model's accepts on the model's static type, and in the pure variable / constant cells with docs/spec.md through the theorems. Non-trivial = distinct query / program", len(tys), depth, map[bool]int{false: 2, true: depth}[Thorough()], nfun, nprog, len(targets), len(vals))
